@@ -94,41 +94,95 @@ func ruleLexLess(r *core.Run, p *core.Prog, typ string) {
 		}
 		return "", false
 	}
+	// Path form of a lexicographic chain (indifferent to if-chain / tagless switch / nesting / condition polarity): on every
+	// path each test decides whether ONE field of both operands differs; tests found equal are passed, the first test found
+	// different ends the path with a return that orders by the same field and the same key expressions; the path on which
+	// nothing differs ends with a return ordering by one further field.
 	var order []string
 	okShape := true
 	detail := ""
-	for i, st := range f.Decl.Body.List {
-		switch s := st.(type) {
-		case *ast.IfStmt:
-			fc, ok1 := single(s.Cond)
-			var ret *ast.ReturnStmt
-			if len(s.Body.List) == 1 {
-				ret, _ = s.Body.List[0].(*ast.ReturnStmt)
+	g := core.GraphOf(f)
+	paths, okP := g.Paths(core.Entry, core.Exit, 5000)
+	if !okP {
+		okShape, detail = false, "too many paths"
+	}
+	differs := func(cond ast.Expr, taken bool) (field string, diff bool, kx, ky string, ok bool) {
+		fld, ok1 := single(cond)
+		if !ok1 {
+			return "", false, "", "", false
+		}
+		if x, y, eq, okE := eqTest(cond, taken); okE {
+			return fld, !eq, core.Str(x), core.Str(y), true
+		}
+		atom, truth := normCond(cond, taken)
+		if c, isCall := atom.(*ast.CallExpr); isCall {
+			if sel, isSel := c.Fun.(*ast.SelectorExpr); isSel && len(c.Args) == 1 && (sel.Sel.Name == "Equal" || sel.Sel.Name == "EqualFold") {
+				return fld, !truth, core.Str(sel.X), core.Str(c.Args[0]), true
 			}
-			if !ok1 || ret == nil || s.Else != nil || s.Init != nil {
-				okShape, detail = false, fmt.Sprintf("step %d is not `if <field differs> { return <field less> }`", i)
+		}
+		return "", false, "", "", false
+	}
+	longest := -1
+	for _, path := range paths {
+		var passed []string
+		ended := false
+		for i, id := range path {
+			n := g.Nodes[id]
+			if n == nil {
 				continue
 			}
-			fr, ok2 := single(ret)
-			if !ok2 || fr != fc {
-				okShape, detail = false, fmt.Sprintf("step %d tests field %s but orders by %s", i, fc, fr)
+			if tk, isC := g.Taken(path, i); isC {
+				fld, diff, kx, ky, ok := differs(n.(ast.Expr), tk)
+				if !ok {
+					okShape, detail = false, fmt.Sprintf("%s: the test %s does not decide whether one field of both operands differs", p.Rel(n.Pos()), core.Str(n.(ast.Expr)))
+					continue
+				}
+				if ended {
+					okShape, detail = false, "a field is tested after another was already found different: "+pathLines(p, g, path)
+				}
+				if diff {
+					ended = true
+					passed = append(passed, fld+"\x00"+kx+"\x00"+ky)
+				} else {
+					passed = append(passed, fld)
+				}
+				continue
 			}
-			// the test and the ordering must look at the same key: operands of `differs` == operands of `less`
-			cx, cy := cmpOperands(s.Cond)
-			rx, ry := cmpOperands(ret.Results[0])
-			if cx == "" || rx == "" || cx != rx || cy != ry {
-				okShape, detail = false, fmt.Sprintf("step %d decides 'differs' on (%s, %s) but orders by (%s, %s): values that differ under the first but tie under the second are neither less nor greater, and the remaining fields are never consulted", i, cx, cy, rx, ry)
+			rs, isRet := n.(*ast.ReturnStmt)
+			if !isRet || len(rs.Results) != 1 {
+				if _, isAssign := n.(*ast.AssignStmt); isAssign {
+					continue
+				}
+				continue
 			}
-			order = append(order, fc)
-		case *ast.ReturnStmt:
-			fr, ok := single(s)
-			if !ok {
-				okShape, detail = false, "final return does not order by exactly one field of both operands"
+			fr, okR := single(rs)
+			if !okR {
+				okShape, detail = false, fmt.Sprintf("%s: the return does not order by exactly one field of both operands", p.Rel(rs.Pos()))
+				continue
 			}
-			order = append(order, fr)
-		default:
-			okShape, detail = false, fmt.Sprintf("unexpected statement %T", st)
+			if ended {
+				last := strings.Split(passed[len(passed)-1], "\x00")
+				rx, ry := cmpOperands(rs.Results[0])
+				if last[0] != fr {
+					okShape, detail = false, fmt.Sprintf("a step tests field %s but orders by %s: %s", last[0], fr, pathLines(p, g, path))
+				} else if rx == "" || rx != last[1] || ry != last[2] {
+					okShape, detail = false, fmt.Sprintf("a step decides 'differs' on (%s, %s) but orders by (%s, %s): values that differ under the first but tie under the second are neither less nor greater, and the remaining fields are never consulted", last[1], last[2], rx, ry)
+				}
+			} else {
+				// nothing differed: the final tie-break
+				if len(passed) > longest {
+					longest = len(passed)
+					order = nil
+					for _, q := range passed {
+						order = append(order, strings.Split(q, "\x00")[0])
+					}
+					order = append(order, fr)
+				}
+			}
 		}
+	}
+	if longest < 0 && okShape {
+		okShape, detail = false, "no path on which all tested fields are equal"
 	}
 	r.Check(rule, typ+".Less:chain-shape", p.Rel(f.Decl.Pos()), okShape, detail)
 	seen := map[string]int{}
@@ -356,50 +410,62 @@ func c14By(r *core.Run, p *core.Prog) {
 			}
 		}
 	}
-	visit = func(list []ast.Stmt, sortC, dirC []string) {
-		for i, st := range list {
-			switch s := st.(type) {
-			case *ast.SwitchStmt:
-				tag := core.ObjOf(info, s.Tag)
-				for _, cs := range s.Body.List {
-					cc := cs.(*ast.CaseClause)
-					var names []string
-					for _, ce := range cc.List {
-						if o := core.ObjOf(info, selOrIdent(ce)); o != nil {
-							names = append(names, o.Name())
+	// every closure is identified by the path that returns it: the sort-key constant and the direction constant found equal
+	// on the path (switch cases or == tests) and the outcome of the test of `ascending` (any polarity, any branch order)
+	g := core.GraphOf(f)
+	cases := enumTests(f.Decl.Body)
+	paths, okP := g.Paths(core.Entry, core.Exit, 20000)
+	if !okP {
+		r.Undecided(rule, "By:paths", p.Rel(f.Decl.Pos()), "too many paths")
+		return
+	}
+	seenPos := map[string]bool{}
+	for _, path := range paths {
+		sc, dc := "", ""
+		asc, ascKnown := false, false
+		for i, id := range path {
+			nd := g.Nodes[id]
+			if nd == nil {
+				continue
+			}
+			if tk, isC := g.Taken(path, i); isC {
+				if subj, k, eq, ok := enumCond(cases, nd, tk); ok && eq {
+					if o := core.ObjOf(info, selOrIdent(k)); o != nil {
+						switch core.ObjOf(info, subj) {
+						case pSort:
+							sc = o.Name()
+						case pDir:
+							dc = o.Name()
 						}
 					}
-					switch tag {
-					case pSort:
-						visit(cc.Body, names, dirC)
-					case pDir:
-						visit(cc.Body, sortC, names)
-					}
+					continue
 				}
-			case *ast.IfStmt:
-				if core.ObjOf(info, s.Cond) == pAsc {
-					for _, b := range s.Body.List {
-						if rs, ok := b.(*ast.ReturnStmt); ok && len(rs.Results) == 1 {
-							if fl, ok := rs.Results[0].(*ast.FuncLit); ok {
-								closure(fl, sortC, dirC, true)
-							}
-						}
-					}
-					// the statement following `if ascending {…}` is the descending closure
-					if i+1 < len(list) {
-						if rs, ok := list[i+1].(*ast.ReturnStmt); ok && len(rs.Results) == 1 {
-							if fl, ok := rs.Results[0].(*ast.FuncLit); ok {
-								closure(fl, sortC, dirC, false)
-							}
-						}
-					}
+				if atom, truth := normCond(nd.(ast.Expr), tk); core.ObjOf(info, atom) == pAsc {
+					asc, ascKnown = truth, true
 				}
+				continue
+			}
+			if rs, ok := nd.(*ast.ReturnStmt); ok && len(rs.Results) == 1 {
+				fl, isLit := resolveLocal(info, f.Decl.Body, rs.Results[0]).(*ast.FuncLit)
+				if !isLit || sc == "" || !ascKnown {
+					continue
+				}
+				key := fmt.Sprintf("%d|%s|%s|%v", fl.Pos(), sc, dc, asc)
+				if seenPos[key] {
+					continue
+				}
+				seenPos[key] = true
+				var dcs []string
+				if dc != "" {
+					dcs = []string{dc}
+				}
+				closure(fl, []string{sc}, dcs, asc)
 			}
 		}
 	}
-	visit(f.Decl.Body.List, nil, nil)
-	if n < 14 {
-		r.Undecided(rule, "By:closures", p.Rel(f.Decl.Pos()), fmt.Sprintf("only %d comparator closures recognised (14 on the reference tree)", n))
+	_ = visit
+	if n < 18 {
+		r.Undecided(rule, "By:closures", p.Rel(f.Decl.Pos()), fmt.Sprintf("only %d (sort key, direction, ascending) positions with a comparator closure recognised (18 on the reference tree)", n))
 	}
 }
 
@@ -422,9 +488,25 @@ func c14SortBeforeLimit(r *core.Run, p *core.Prog) {
 					out = append(out, ev{label: "postprocess"})
 				}
 			}
-			if a, ok := n.(*ast.AssignStmt); ok && len(a.Lhs) == 1 && core.SelField(info, a.Lhs[0]) == fRows {
-				if _, ok := ast.Unparen(a.Rhs[0]).(*ast.SliceExpr); ok {
+			if a, ok := n.(*ast.AssignStmt); ok && len(a.Lhs) == 1 && len(a.Rhs) == 1 && core.SelField(info, a.Lhs[0]) == fRows {
+				rhs := resolveLocal(info, f.Decl.Body, a.Rhs[0])
+				if _, ok := ast.Unparen(rhs).(*ast.SliceExpr); ok {
 					out = append(out, ev{label: "truncate"})
+				} else if c, ok := ast.Unparen(rhs).(*ast.CallExpr); ok {
+					// a helper that returns a prefix of the rows it is given
+					if fo, ok := core.Callee(info, c).(*types.Func); ok {
+						if h := p.FnOf(fo); h != nil {
+							core.Walk(h.Decl.Body, false, func(x ast.Node) bool {
+								if rs, ok := x.(*ast.ReturnStmt); ok && len(rs.Results) >= 1 {
+									if _, ok := ast.Unparen(rs.Results[0]).(*ast.SliceExpr); ok {
+										out = append(out, ev{label: "truncate"})
+										return false
+									}
+								}
+								return true
+							})
+						}
+					}
 				}
 			}
 			return out
@@ -504,31 +586,40 @@ func c13(r *core.Run) {
 			g := core.NewGraph(info, loop.Body)
 			fTS := p.FieldObj(pkgResults, "Labels", "Timestamp")
 			var merged types.Object
-			cl := func(n ast.Node, cond *bool) []ev {
+			var mergeArgHelper *core.Fn
+			// label events, readable in BinTime's loop body or in a helper that prepares the row
+			labelEvents := func(ci *types.Info, n ast.Node, cond *bool) []ev {
 				var out []ev
 				if cond != nil {
-					e := ast.Unparen(n.(ast.Expr))
-					neg := false
-					if u, ok := e.(*ast.UnaryExpr); ok && u.Op == token.NOT {
-						neg, e = true, ast.Unparen(u.X)
-					}
+					e, truth := normCond(n.(ast.Expr), *cond)
 					if c, ok := e.(*ast.CallExpr); ok {
-						if _, m := core.MethodCall(info, c); m == "IsZero" && core.MentionsField(info, c, fTS) {
-							zero := *cond != neg
-							out = append(out, ev{label: map[bool]string{true: "ts-zero", false: "ts-set"}[zero]})
+						if _, m := core.MethodCall(ci, c); m == "IsZero" && core.MentionsField(ci, c, fTS) {
+							out = append(out, ev{label: map[bool]string{true: "ts-zero", false: "ts-set"}[truth]})
 						}
 					}
 				}
-				if a, ok := n.(*ast.AssignStmt); ok && len(a.Lhs) == 1 && core.SelField(info, a.Lhs[0]) == fTS {
-					if c, ok := ast.Unparen(a.Rhs[0]).(*ast.CallExpr); ok && core.CallName(info, c) == "time.Unix" {
+				if a, ok := n.(*ast.AssignStmt); ok && len(a.Lhs) == 1 && core.SelField(ci, a.Lhs[0]) == fTS {
+					if c, ok := ast.Unparen(a.Rhs[0]).(*ast.CallExpr); ok && core.CallName(ci, c) == "time.Unix" {
 						out = append(out, ev{label: "relabel-unix", node: a})
 					} else {
 						out = append(out, ev{label: "relabel-other", node: a})
 					}
 				}
+				return out
+			}
+			cl := func(n ast.Node, cond *bool) []ev {
+				out := labelEvents(info, n, cond)
 				for _, c := range core.Calls(n, false) {
 					if core.CallName(info, c) == pkgResults+".RowsMap.MergeRow" && len(c.Args) == 1 {
 						merged = core.ObjOf(info, c.Args[0])
+						if hc, ok := ast.Unparen(c.Args[0]).(*ast.CallExpr); ok {
+							if fo, ok := core.Callee(info, hc).(*types.Func); ok {
+								if h := p.FnOf(fo); h != nil {
+									mergeArgHelper = h
+									merged = fo
+								}
+							}
+						}
 						out = append(out, ev{label: "merge", node: c})
 					}
 				}
@@ -548,9 +639,38 @@ func c13(r *core.Run) {
 					if t.has("relabel-other") {
 						bad = "the binned label is not built with time.Unix: " + pathLines(p, g, t.path)
 					}
-					if t.has("ts-set") && (!t.has("relabel-unix") || t.first("relabel-unix") > t.first("merge")) {
+					if mergeArgHelper == nil && t.has("ts-set") && (!t.has("relabel-unix") || t.first("relabel-unix") > t.first("merge")) {
 						bad = "a row with a timestamp is merged without its label having been rebuilt by time.Unix(binned, 0): labels of one bin can differ in location and split the bin: " + pathLines(p, g, t.path)
 					}
+					if mergeArgHelper == nil && !t.has("ts-set") && !t.has("ts-zero") {
+						bad = "a row is merged without its timestamp having been examined: " + pathLines(p, g, t.path)
+					}
+				}
+			}
+			if ok && mergeArgHelper != nil {
+				// the row is prepared by a helper: the same label rule on every path of the helper, up to its return
+				h := mergeArgHelper
+				hg := core.GraphOf(h)
+				hts, hok := traces(h, hg, func(n ast.Node, cond *bool) []ev { return labelEvents(h.Info(), n, cond) }, 2000)
+				if !hok {
+					ok = false
+				}
+				nSet := 0
+				for _, t := range hts {
+					if t.has("relabel-other") {
+						bad = "the binned label is not built with time.Unix: " + pathLines(p, hg, t.path)
+					}
+					if t.has("ts-set") {
+						nSet++
+						if !t.has("relabel-unix") {
+							bad = "a row with a timestamp is returned for merging without its label having been rebuilt by time.Unix(binned, 0): " + pathLines(p, hg, t.path)
+						}
+					} else if !t.has("ts-zero") {
+						bad = "a row is prepared for merging without its timestamp having been examined: " + pathLines(p, hg, t.path)
+					}
+				}
+				if nSet == 0 && bad == "" {
+					bad = h.Name + " never relabels a row"
 				}
 			}
 			r.Check(rule, "BinTime:every-row-merged-once-with-canonical-label", p.Rel(loop.Pos()), ok && bad == "" && merged != nil, bad)
